@@ -5,6 +5,8 @@
 -/
 import EEM.Model.TempAgg
 import EEM.Gen.Thresholds
+import EEM.Model.ResampleMin
+import EEM.Bridge.ResampleRefine
 import EEM.Props.C08
 import Mathlib.Tactic.Linarith
 import Mathlib.Tactic.FieldSimp
@@ -297,5 +299,40 @@ theorem C09_src_hourlyDay_rule (s e : Int) (rs : List Reading)
       else mean (presentVals (inDay s e rs)) := by
   rw [C09_src_invalid_daily _ _ h]
   simp [hourlyDay]
+
+/-! ### The minute-grid algorithm of `as_freq(..., series_type="instantaneous")` refines the time-weighted mean -/
+
+open EEM.Model.ResampleMin EEM.Bridge.ResampleRefine
+
+/-- **holding each temperature reading until the next one and averaging the minutes of a day is the time-weighted mean**:
+for readings on a strictly increasing index, `asfreq("1 Min", ffill)` followed by `resample("D").mean()` — the mean over the
+minutes of `[d0, d1)` that carry a value — is exactly `instMean`, `Σ v·overlap / Σ overlap`, and it is missing exactly when no
+minute of the day carries a value -/
+theorem C09_src_minute_grid_mean (reads : List Reading) (hs : reads.Pairwise (fun a b => a.1 < b.1))
+    (d0 d1 : Int) (hd : d0 ≤ d1) :
+    dayMeanMin (periods reads) d0 d1 = instMean (periods reads) d0 d1 := by
+  have hch := periods_chained reads hs
+  have hn : d0 + ((d1 - d0).toNat : Int) = d1 := by omega
+  have hcount := valCount_eq (·.v) (fun _ => rfl) (periods reads) hch (d1 - d0).toNat d0
+  have hsum := valSum_eq (·.v) (periods reads) hch (d1 - d0).toNat d0
+  rw [hn] at hcount hsum
+  unfold dayMeanMin instMean minutes heldAt
+  simp only []
+  have hw : ((periods reads).map fun p => (p.v).getD 0 * ((overlap d0 d1 p.t0 p.t1 : Int) : Rat)) =
+      (periods reads).map (weighted d0 d1) := by
+    apply List.map_congr_left
+    intro p _
+    unfold weighted
+    cases p.v <;> simp
+  rw [hsum, hw]
+  by_cases hz : dayCovered (periods reads) d0 d1 = 0
+  · have : ((minutesFrom d0 (d1 - d0).toNat).filter fun m => (valAt (·.v) (periods reads) m).isSome).length = 0 := by
+      have := hcount; rw [hz] at this; exact_mod_cast this
+    simp [this, hz]
+  · have hne : ((minutesFrom d0 (d1 - d0).toNat).filter fun m => (valAt (·.v) (periods reads) m).isSome).length ≠ 0 := by
+      intro h0; apply hz; rw [← hcount, h0]; rfl
+    simp only [hne, hz, if_false]
+    congr 2
+    exact_mod_cast hcount
 
 end EEM.Props.C09
